@@ -63,6 +63,8 @@ impl Case {
 
 const NAMES: &[&str] = &[
     "a", "b", "A", "ab", "a.", "a.b", ".a", "-", "a-b", "b.a", "a..", "..a", "B.a", "a*", "*", "[", "[a]", "a[", "-a", "aA",
+    // leading / inner blanks and tabs (git keeps them: only trailing spaces are trimmed)
+    " a", "a b", "\ta", " lead", "a\tb",
 ];
 
 fn gen_tree(rng: &mut Rng, c: &mut Case, dir: &[u8], depth: usize) {
@@ -209,7 +211,112 @@ fn gen_line(rng: &mut Rng, c: &Case, dir: &[u8], odd: bool) -> String {
     if rng.chance(1, 10) {
         pat.push_str(["  ", " ", "\\ "][rng.below(3)]);
     }
+    // odd: a trailing tab (git keeps it, ripgrep trims it: recorded finding)
+    if odd && rng.chance(1, 8) {
+        pat.push_str(["\t", "\t ", " \t"][rng.below(3)]);
+    }
+    // indentation: for git the blanks / tabs belong to the pattern (an indented `!x` is not a negation,
+    // an indented `#x` not a comment)
+    if rng.chance(1, 12) {
+        pat.insert_str(0, [" ", "  ", "\t", " \t"][rng.below(4)]);
+    }
     pat
+}
+
+/// Files whose rules fall into the same `GlobSet` strategy class (suffix `**/x/y`, literal `/x/y`, basename
+/// literal `x`, extension `*.e`, required extension `**/x*.e`, prefix-like `x/y/**`) with literals of DIFFERENT
+/// lengths in either order, and a tree in which the named paths occur at the top and nested below other
+/// directories.
+fn gen_family_case(rng: &mut Rng) -> Case {
+    const PLAIN: &[&str] = &["a", "b", "ab", "abc", "a.b", "b.a", "x.log", "build", "gen", "tmp", "aA", "a-b"];
+    let mut c = Case { ci: rng.chance(1, 8), entries: BTreeMap::new(), ignores: BTreeMap::new() };
+    let nt = rng.range(2, 4);
+    let mut targets: Vec<Vec<&str>> = vec![];
+    for _ in 0..nt {
+        let k = rng.range(1, 3);
+        targets.push((0..k).map(|_| *rng.pick(PLAIN)).collect());
+    }
+    fn add_path(c: &mut Case, comps: &[&str], last_is_dir: bool) {
+        let mut p: Vec<u8> = vec![];
+        for (i, comp) in comps.iter().enumerate() {
+            if !p.is_empty() {
+                p.push(b'/');
+            }
+            p.extend(comp.as_bytes());
+            let is_dir = i + 1 < comps.len() || last_is_dir;
+            // never turn an existing directory into a file or vice versa
+            if let Some(&d) = c.entries.get(&p) {
+                if d != is_dir {
+                    return;
+                }
+            } else {
+                c.entries.insert(p.clone(), is_dir);
+            }
+        }
+    }
+    let hosts: Vec<&str> = (0..2).map(|_| *rng.pick(&["sub", "s", "a", "build", "x"][..])).collect();
+    for t in &targets {
+        let as_dir = rng.chance(1, 2);
+        for prefix in [vec![], vec![hosts[0]], vec![hosts[0], hosts[1]], vec![hosts[1]]] {
+            if !prefix.is_empty() && rng.chance(1, 4) {
+                continue;
+            }
+            let mut comps: Vec<&str> = prefix.clone();
+            comps.extend(t.iter());
+            add_path(&mut c, &comps, as_dir);
+            if as_dir {
+                let mut inner = comps.clone();
+                inner.push(*rng.pick(PLAIN));
+                add_path(&mut c, &inner, false);
+            }
+        }
+    }
+    for _ in 0..rng.range(1, 3) {
+        add_path(&mut c, &[*rng.pick(PLAIN)], false);
+    }
+    let family = rng.below(6);
+    let mut lines: Vec<String> = vec![];
+    for t in &targets {
+        let joined = t.join("/");
+        let name = t[t.len() - 1];
+        let mut l = match family {
+            0 => format!("**/{}", joined),
+            1 => format!("/{}", joined),
+            2 => name.to_string(),
+            3 => format!("*.{}", name.rsplit('.').next().unwrap_or(name)),
+            4 => format!("**/{}*.{}", &name[..1], name.rsplit('.').next().unwrap_or(name)),
+            _ => format!("{}/**", joined),
+        };
+        if rng.chance(1, 6) {
+            l.insert(0, '!');
+        }
+        if rng.chance(1, 6) {
+            l.push('/');
+        }
+        lines.push(l);
+    }
+    // a rule of another family in between now and then
+    if rng.chance(1, 3) {
+        let t = rng.pick(&targets).clone();
+        lines.insert(rng.below(lines.len() + 1), format!("**/{}", t.join("/")));
+    }
+    // both orders of literal length
+    match rng.below(3) {
+        0 => lines.sort_by_key(|l| l.len()),
+        1 => lines.sort_by_key(|l| std::cmp::Reverse(l.len())),
+        _ => {}
+    }
+    let dir: Vec<u8> = if rng.chance(1, 4) && c.entries.get(hosts[0].as_bytes()) == Some(&true) { hosts[0].as_bytes().to_vec() } else { vec![] };
+    let mut content = lines.join("\n").into_bytes();
+    content.push(b'\n');
+    c.ignores.insert(dir.clone(), content);
+    let mut p = dir;
+    if !p.is_empty() {
+        p.push(b'/');
+    }
+    p.extend(b".gitignore");
+    c.entries.insert(p, false);
+    c
 }
 
 fn gen_case(rng: &mut Rng) -> Case {
@@ -383,11 +490,71 @@ fn line_has_class_admitting_slash(line: &str) -> bool {
     false
 }
 
+/// git's `match_pathname` compares the literal prefix (`nowildcardlen`) on its own and runs wildmatch on the
+/// rest, so a `**` directly after a literal prefix that does not end in `/` counts as "at the start of the
+/// pattern" and spans directories (`/b**`, `a/b**`, `/b**/c`); ripgrep and gitignore(5) read it as `*`.
+/// Only patterns with a `/` (match_pathname) are concerned.
+fn line_has_prefix_then_dstar(line: &str) -> bool {
+    let mut b: &[u8] = line.as_bytes();
+    if b.first() == Some(&b'#') {
+        return false;
+    }
+    // trailing unescaped blanks
+    while b.last() == Some(&b' ') && !(b.len() >= 2 && b[b.len() - 2] == b'\\') {
+        b = &b[..b.len() - 1];
+    }
+    if b.first() == Some(&b'!') {
+        b = &b[1..];
+    }
+    if b.last() == Some(&b'/') {
+        b = &b[..b.len() - 1];
+    }
+    if !b.contains(&b'/') {
+        return false;
+    }
+    if b.first() == Some(&b'/') {
+        b = &b[1..];
+    }
+    let k = b.iter().position(|c| matches!(c, b'*' | b'?' | b'[' | b'\\')).unwrap_or(b.len());
+    if k == 0 || b[k - 1] == b'/' || !b[k..].starts_with(b"**") {
+        return false;
+    }
+    let mut j = k;
+    while j < b.len() && b[j] == b'*' {
+        j += 1;
+    }
+    j == b.len() || b[j] == b'/' || (b[j] == b'\\' && j + 1 < b.len() && b[j + 1] == b'/')
+}
+
+/// `add_line` trims every kind of trailing white space (`trim_right`), git only spaces: a line whose content ends
+/// in a tab (or another non-space white-space character) once the trailing spaces are gone
+fn line_has_trailing_nonspace_ws(line: &str) -> bool {
+    if line.starts_with('#') || line.ends_with("\\ ") {
+        return false;
+    }
+    let t = line.trim_end_matches(' ');
+    t.chars().last().map_or(false, |ch| ch.is_whitespace() && ch != ' ')
+}
+
 fn classify(c: &Case) -> &'static str {
     for content in c.ignores.values() {
         for l in content_lines(content) {
             if line_has_class_admitting_slash(&l) {
                 return "bracket-class-admits-slash";
+            }
+        }
+    }
+    for content in c.ignores.values() {
+        for l in content_lines(content) {
+            if line_has_prefix_then_dstar(&l) {
+                return "literal-prefix-then-double-star";
+            }
+        }
+    }
+    for content in c.ignores.values() {
+        for l in content_lines(content) {
+            if line_has_trailing_nonspace_ws(&l) {
+                return "trailing-nonspace-whitespace-trimmed";
             }
         }
     }
@@ -561,7 +728,8 @@ fn run_case(c: &Case, env: &mut Env, drv: &mut Driver, rep: &mut Report, quiet: 
             out.push(mk("model_vs_spec", "", "theorem C04_partial contradicted (model vs spec under okFileLine)", format!("path {:?}: model {} spec {}", show(p), mm, ms)));
         }
         if ms != g {
-            out.push(mk("model_vs_spec", class, TIE_SPEC, format!("path {:?}: spec says ignored = {}, real git = {}", show(p), ms, g)));
+            // the spec models real git in both finding classes as well, so this comparison is never excused
+            out.push(mk("model_vs_spec", "", TIE_SPEC, format!("path {:?}: spec says ignored = {}, real git = {}", show(p), ms, g)));
         }
     }
     if !quiet {
@@ -687,7 +855,7 @@ fn main() {
         let mut rng = Rng::new(args.seed);
         let n = args.cases.unwrap_or(if args.thorough { 20000 } else { 1500 });
         for i in 0..n {
-            let c = gen_case(&mut rng);
+            let c = if i % 5 == 4 { gen_family_case(&mut rng) } else { gen_case(&mut rng) };
             if i < 4 {
                 rep.sample(c.line());
             }
